@@ -105,16 +105,21 @@ def process_nodes_recursive(
     variables=None,
     mode=1,
     premium=False,
+    decl_lists=None,
 ):
     if variables is None:
         variables = {}
 
     for node in node_list:
         if isinstance(node, QualifiedRule):
-            # Process declarations
-            declarations = tinycss2.parse_declaration_list(
-                node.content, skip_whitespace=False, skip_comments=False
-            )
+            # Process declarations. Rules whose declarations were already parsed by the
+            # caller (:root/html, for the custom properties) must be edited in that same
+            # list, otherwise the caller's write-back discards the change.
+            declarations = decl_lists.get(id(node)) if decl_lists else None
+            if declarations is None:
+                declarations = tinycss2.parse_declaration_list(
+                    node.content, skip_whitespace=False, skip_comments=False
+                )
             valid_decls = [d for d in declarations if isinstance(d, Declaration)]
 
             modified = False
@@ -264,6 +269,7 @@ def process_nodes_recursive(
                     variables,
                     mode=mode,
                     premium=premium,
+                    decl_lists=decl_lists,
                 )
 
                 nested_css = tinycss2.serialize(nested_rules)
@@ -354,6 +360,7 @@ def main(path, default_bg, mode, premium):
                 variables,
                 mode=mode,
                 premium=premium,
+                decl_lists=rule_declarations_map,
             )
 
             # Post-process: Update content of rules that had variables modified
